@@ -529,7 +529,7 @@ func (rr *rpcRun) run() {
 	if rr.poisoned {
 		rr.res.stat("runs_with_transport_fault", 1)
 	}
-	rr.res.TraceHash = hashStrings(w.Trace)
+	rr.res.TraceHash = hashTrace(w.Trace)
 	if len(w.Panics) > 0 && rr.res.V == nil {
 		rr.viol("panic", "%s", w.Panics[0])
 	}
